@@ -223,3 +223,19 @@ Proof.
       eapply nth_error_In with (n := (i - m)%nat). rewrite nth_error_skipn_ge.
       replace (m + (i - m))%nat with i by lia. exact Hi.
 Qed.
+
+(* hence: what is acknowledged is in the journal a kill right after this event would leave *)
+Lemma ack_on_disk : forall c e from cm pidx pterm new s d,
+  log_wf (log (nd s)) -> consec (pidx + 1) new ->
+  let s' := ae_regular e from cm (Some (pidx, pterm)) new s in
+  disk_of c (nd s') = Some d ->
+  forall t nx r, In (Send from (NextIdx t nx r true)) (outs s') ->
+    In (Send from (NextIdx t nx r true)) (outs s) \/
+    (nx - 1 <= last_idx (d_log d) /\
+     forall en, In en new ->
+       exists en', In en' (d_log d) /\ eidx en' = eidx en /\ eterm en' = eterm en).
+Proof.
+  intros c e from cm pidx pterm new s d Hwf Hnew s' Hd t nx r Hin.
+  destruct (disk_has_log c (nd s') d Hd) as (Hl & _). rewrite Hl.
+  exact (ack_covered e from cm pidx pterm new s Hwf Hnew t nx r Hin).
+Qed.
